@@ -225,15 +225,88 @@ pub fn draw_dict_header(t: &mut Tape) -> (u32, u64) {
     (v, (v as u64).max(4096))
 }
 
+/// What a generated program exercised (reach probes, inferred from the model).
+#[derive(Clone, Debug, Default)]
+pub struct ProgStats {
+    pub symbols: u32,
+    pub kinds: [u32; 4],
+    pub overlap_copies: u32,
+    pub src_wrap_copies: u32,
+    pub dst_wrap_copies: u32,
+    pub max_dist: u64,
+    pub len_273: u32,
+    pub dist_eq_dict: u32,
+    pub dist_eq_avail: u32,
+    /// bit mask of (state_before) seen
+    pub states: u32,
+}
+
+impl ProgStats {
+    pub fn note(&mut self, s: Sym, m: &LzModel, state: usize) {
+        self.symbols += 1;
+        self.states |= 1 << state;
+        let (dist, len) = match s {
+            Sym::Lit(_) => {
+                self.kinds[0] += 1;
+                return;
+            }
+            Sym::Match { dist, len } => {
+                self.kinds[1] += 1;
+                (dist as u64, len as u64)
+            }
+            Sym::ShortRep => {
+                self.kinds[2] += 1;
+                (m.reps[0] as u64 + 1, 1)
+            }
+            Sym::Rep { idx, len } => {
+                self.kinds[3] += 1;
+                (m.reps[idx as usize] as u64 + 1, len as u64)
+            }
+        };
+        self.max_dist = self.max_dist.max(dist);
+        if dist < len {
+            self.overlap_copies += 1;
+        }
+        if len == 273 {
+            self.len_273 += 1;
+        }
+        let avail = m.avail() as u64;
+        if dist == avail {
+            self.dist_eq_avail += 1;
+        }
+        if dist == m.dict_size {
+            self.dist_eq_dict += 1;
+        }
+        if m.dict_size > 0 && m.dict_size <= (1 << 24) {
+            let d = m.dict_size;
+            let cursor = avail % d;
+            let src = (cursor + d - (dist % d)) % d;
+            if src + len > d {
+                self.src_wrap_copies += 1;
+            }
+            if cursor + len >= d {
+                self.dst_wrap_copies += 1;
+            }
+        }
+    }
+}
+
 /// Generate a legal program of about `target` output bytes into `enc`.
-/// Returns the number of symbols encoded.
-pub fn gen_program(t: &mut Tape, c: &SymCfg, enc: &mut RefEnc, target: u64, max_syms: u32) -> u32 {
+pub fn gen_program(
+    t: &mut Tape,
+    c: &SymCfg,
+    enc: &mut RefEnc,
+    target: u64,
+    max_syms: u32,
+    ps: &mut ProgStats,
+) -> u32 {
     let mut g = GenState::default();
     let start = enc.model.out.len() as u64;
     let mut n = 0;
     while (enc.model.out.len() as u64) < start + target && n < max_syms {
         let budget = start + target - enc.model.out.len() as u64;
         let s = next_sym(t, c, &mut g, &enc.model, budget);
+        ps.note(s, &enc.model, enc.state);
         let _ = enc.encode(s);
         n += 1;
     }
